@@ -75,7 +75,8 @@ Target(c) == IF c.kind = "input" THEN <<c.slot[1], c.slot[2]>> ELSE <<c.obj, c.a
 GroupChanges(T) ==
     {<<a, b>> : a \in StructChanges(T), b \in InputChanges(T)} \cup
     {<<b, a>> : a \in StructChanges(T), b \in InputChanges(T)} \cup
-    {<<a, b>> \in StructChanges(T) \X StructChanges(T) : Target(a) # Target(b)}
+    {<<a, b>> \in StructChanges(T) \X StructChanges(T) : Target(a) # Target(b)} \cup
+    {<<a, b>> \in InputChanges(T) \X InputChanges(T) : Target(a) # Target(b)}
 
 Updates(T) == {<<c>> : c \in SingleChanges(T)} \cup (IF Groups THEN GroupChanges(T) ELSE {})
 
